@@ -91,7 +91,7 @@ let () =
       let line = input_line stdin in
       if String.length line > 0 then begin
         Buffer.clear b;
-        (try add_sx b (run (parse line)) with
+        (try add_sx b (dispatch_request (parse line)) with
          | Stack_overflow -> Buffer.clear b; Buffer.add_string b "(-2)"
          | Failure _ -> Buffer.clear b; Buffer.add_string b "(-3)");
         Buffer.add_char b '\n';
